@@ -535,6 +535,14 @@ pub fn validate_lists(tier: &str, seed: u64, out: &mut dyn Write) {
                 }
             }
         }
+        // directed: long lists of User Properties (may repeat without limit): counts around 255/256
+        // and counts whose encoded section is exactly a multiple of 128 bytes long (6 + 7(n-1):
+        // 55 -> 384, 183 -> 1280) or just beside one
+        for &rc in rcs {
+            for n in [54usize, 55, 56, 183, 255, 256, 257, 300, 1000] {
+                v_line(loc, rc, &vec![PropertyId::UserProperty; n], out);
+            }
+        }
         // random lists biased towards the properties this location's validator knows
         let accepted: Vec<PropertyId> = ids
             .iter()
